@@ -84,6 +84,13 @@ func TransformModuleFilesToModel( //nolint:funlen,gocognit,cyclop
 		if err != nil {
 			var syntaxError *multierror.Error
 			if errors.As(err, &syntaxError) {
+				for _, item := range syntaxError.Errors {
+					var single *OpenFgaDslSyntaxError
+					if errors.As(item, &single) {
+						single.File = module.Name
+					}
+				}
+
 				transformErrors = multierror.Append(transformErrors, syntaxError.Errors...)
 			}
 
